@@ -22,6 +22,13 @@
 #ifndef NREG
 #define NREG 3
 #endif
+/* Area bases / register addresses are confined to [0, VP_ADDR_LIMIT]: equality
+ * of two formulations of 32-bit interval arithmetic is what makes these
+ * queries hard for SAT; a small window keeps the upper bits constant. Request
+ * addresses stay full 32 bit. */
+#ifndef VP_ADDR_LIMIT
+#define VP_ADDR_LIMIT 0x3fu
+#endif
 #ifndef AWORDS
 #define AWORDS 6 /* words of backing store per area */
 #endif
@@ -440,6 +447,67 @@ static void vp_link_direct(const struct vp_table *d)
     }
 }
 
+
+/* Concrete table geometry, enumerated by the driver (one query per geometry):
+ * area bases/sizes and register addresses/word counts are compile-time
+ * constants (-DGA_N, -DGAi_B, -DGAi_S, -DGR_N, -DGRi_A, -DGRi_W); everything
+ * else in the description (flags, callbacks, backing kind, register types
+ * within the size class, constraint kinds and bounds, defaults, byte order)
+ * stays symbolic. Symbolic geometry makes every e->area / a->mem access a case
+ * split over all objects and cost two orders of magnitude more (measured). */
+#ifdef GA_N
+static void vp_apply_geometry(struct vp_table *d)
+{
+    d->nareas = GA_N;
+    d->nentries = GR_N;
+#if GA_N > 0
+    d->a[0].base = GA0_B; d->a[0].size = GA0_S;
+#endif
+#if GA_N > 1
+    d->a[1].base = GA1_B; d->a[1].size = GA1_S;
+#endif
+#if GA_N > 2
+    d->a[2].base = GA2_B; d->a[2].size = GA2_S;
+#endif
+#if GR_N > 0
+    d->e[0].address = GR0_A;
+#endif
+#if GR_N > 1
+    d->e[1].address = GR1_A;
+#endif
+#if GR_N > 2
+    d->e[2].address = GR2_A;
+#endif
+#if GR_N > 3
+    d->e[3].address = GR3_A;
+#endif
+#if GR_N > 4
+    d->e[4].address = GR4_A;
+#endif
+}
+
+static bool vp_geometry_types_ok(const struct vp_table *d)
+{
+    bool ok = true;
+#if GR_N > 0
+    ok = ok && ref_size(d->e[0].type) == GR0_W;
+#endif
+#if GR_N > 1
+    ok = ok && ref_size(d->e[1].type) == GR1_W;
+#endif
+#if GR_N > 2
+    ok = ok && ref_size(d->e[2].type) == GR2_W;
+#endif
+#if GR_N > 3
+    ok = ok && ref_size(d->e[3].type) == GR3_W;
+#endif
+#if GR_N > 4
+    ok = ok && ref_size(d->e[4].type) == GR4_W;
+#endif
+    return ok;
+}
+#endif
+
 /* copy of all backing words, for frame conditions */
 struct vp_snapshot {
     RegisterAtom mem[NAREA][AWORDS];
@@ -448,7 +516,9 @@ struct vp_snapshot {
 
 static void vp_snap(struct vp_snapshot *s)
 {
-    memcpy(s->mem, vp_mem, sizeof vp_mem);
+    for (unsigned a = 0; a < NAREA; ++a)
+        for (unsigned w = 0; w < AWORDS; ++w)
+            s->mem[a][w] = vp_mem[a][w];
     for (unsigned i = 0; i < NREG; ++i)
         s->flags[i] = vp_entries[i].flags;
 }
